@@ -484,6 +484,40 @@ fn widen(v: &TV, c: &mut Cur, depth: u32) -> KD {
     k
 }
 
+/// the kind of `v` widened by the decisions in `bytes` (`v` stays a member)
+pub fn widen_value(v: &TV, bytes: &[u8]) -> KD {
+    let mut c = Cur { b: bytes, i: 0 };
+    let mut k = widen(v, &mut c, 3);
+    // the root of an event is an object and nothing else
+    k.prim = 0;
+    k.arr = None;
+    loosen_arrays(&mut k);
+    k
+}
+
+/// Array kinds with known indices that may be undefined, or with exact unknown element kinds, hit
+/// the open known findings of C19 (D39 family) in almost every program that touches them; the
+/// external kinds used for whole-program checks keep arrays as `array(any)` instead.
+fn loosen_arrays(k: &mut KD) {
+    // an object alternative inside a union keeps no required fields (C19 D40: insertion through
+    // a union of a collection and something else)
+    if k.obj.is_some() && (k.prim != 0 || k.arr.is_some()) {
+        k.obj = Some(Box::new(ObjD { known: BTreeMap::new(), unknown: UK::Any }));
+    }
+    if let Some(a) = &mut k.arr {
+        a.known.clear();
+        a.unknown = UK::Any;
+    }
+    if let Some(o) = &mut k.obj {
+        for v in o.known.values_mut() {
+            loosen_arrays(v);
+        }
+        if let UK::Exact(u) = &mut o.unknown {
+            loosen_arrays(u);
+        }
+    }
+}
+
 /// (kind, member) built bottom-up from a value; shrinks well
 pub fn widened(depth: u32) -> BoxedStrategy<(KD, TV)> {
     (value::value(value::FULL, depth), proptest::collection::vec(any::<u8>(), 0..96))
